@@ -136,7 +136,7 @@ HEX = '0123456789ABCDEFabcdef'
 USED = {
     'index': {'d0': 9, 'd1': 9}, 'range': {'d0': 8, 'e0': 1, 'e1': 9}, 'count': {'d0': 9, 'd1': 9}, 'offset': {'d0': 8, 'e0': 1, 'e1': 2, 'd2': 3},
     'write': {'d0': 8, 'e0': 1, 'e1': 2, 'd2': 3}, 'write_cast': {'d0': 3, 'd1': 1, 'e0': 1, 'e1': 2, 'd2': 3},
-    'numeric': {'h0': 21, 'h1': 1, 'd0': 1, 'd1': 1, 'e0': 1, 'd2': 1}, 'numeric_json': {'d0': 1, 'd1': 1, 'e0': 1, 'e1': 1, 'd2': 1},
+    'numeric': {'h0': 21, 'h1': 1, 'd0': 1, 'd1': 1, 'e0': 1, 'd2': 1}, 'numeric_json': {'d0': 1, 'd1': 1, 'e1': 9, 'd2': 1},
     'write_frag_offset': {'d0': 4, 'd1': 2, 'e0': 1, 'e1': 2},
 }
 
@@ -167,14 +167,13 @@ def do_text(form, d0, d1, d2, e0, e1, h0, h1):
         text = '@0x%s/%s/%s[%s]' % (hx, num([d0, d1]), num([e0]), num([d2]))
         exp = dict(path=[{'class': int(hx, 16)}, {'instance': A}, {'attribute': e0}, {'element': d2}])
     elif form == 'numeric_json':
-        text = '@%s/{"connection":%s}/%s' % (num([d0, d1]), num([e0, e1]), num([d2]))
-        exp = dict(path=[{'class': A}, {'connection': Bv}, {'attribute': d2}])
+        text = '@%s/{"connection":%s}/%s' % (num([d0, d1]), num([e1]), num([d2]))        # (JSON numbers carry no leading zero)
+        exp = dict(path=[{'class': A}, {'connection': e1}, {'attribute': d2}])
     else:                                       # fragmented write with offset (element aligned)
         fragment = True
         text = 'Tag[0-%s]+%s=%s' % (num([4 + d0 % 5]), num([2 * (d1 % 3)]), num([e0, e1]))
-        exp = dict(path=[{'symbolic': 'Tag'}, {'element': 0}], elements=5 + d0 % 5, method='write', data=[Bv], tag_type=parser.INT.tag_type)
-        if d1 % 3:
-            exp['offset'] = 2 * (d1 % 3)
+        exp = dict(path=[{'symbolic': 'Tag'}, {'element': 0}], elements=5 + d0 % 5, method='write', data=[Bv], tag_type=parser.INT.tag_type,
+                   offset=2 * (d1 % 3))
     try:
         op, = client.parse_operations([text], fragment=fragment)
     except Exception:
